@@ -344,7 +344,7 @@ func (a *Analysis) onlySyncCallback(f *ssa.Function) bool {
 					if c.Value == ssa.Value(mc) {
 						continue
 					}
-					if g := c.StaticCallee(); g != nil && SyncCallbacks[ir.FullName(g)] {
+					if g := ir.CalleeThroughBound(c); g != nil && SyncCallbacks[ir.FullName(g)] {
 						continue
 					}
 					ok = false
@@ -601,7 +601,7 @@ func (a *Analysis) applyCall(f *ssa.Function, st State, ci ssa.CallInstruction, 
 		return
 	}
 	var gs []*ssa.Function
-	if g := c.StaticCallee(); g != nil && SyncCallbacks[ir.FullName(g)] {
+	if g := ir.CalleeThroughBound(c); g != nil && SyncCallbacks[ir.FullName(g)] {
 		// the function argument runs now, on this goroutine
 		for _, arg := range c.Args {
 			if _, isFn := arg.Type().Underlying().(*types.Signature); !isFn {
